@@ -48,6 +48,26 @@ theorem source_shape_as_modelled :
     contextPassesSVIDSource = true := by
   decide
 
+open Kit.Generated.C19 in
+/-- **What makes "a fresh key per fetch" true in the code** (T1, regenerated on this run): every call
+of `fetchIdentityCertificate` begins by generating a P-256 key into a local, builds the CSR from that
+key, and returns an SVID holding that key; the call assigns no field of its receiver; `SPIFFE` and
+`svidSource` have exactly the fields listed — none of which can retain a key or a CSR between calls
+(`currentSVID` is assigned only from a fetch result, see `source_shape_as_modelled`) — and spiffe.go /
+svidsource.go declare no package-level variable (factgen aborts otherwise).  In the model this is the
+counter: each request draws `nextTok` and increments it (`Shape.fetchProbe`). -/
+theorem fresh_key_as_source :
+    fetchMain.take 3 = [.genKeyP256, .ifErrRet, .csrFromKey] ∧
+    fetchMain.getLast? = some .retSvidKeyChain ∧
+    (fetchMain.filter (· == .genKeyP256)).length = 1 ∧
+    fetchAssignsNoField = true ∧
+    spiffeFields = ["currentSVID *x509svid.SVID", "requestSVIDFn RequestSVIDFn", "dir *dir.Dir",
+      "trustAnchors trustanchors.Interface", "log logger.Logger", "lock sync.RWMutex", "clock clock.Clock",
+      "running atomic.Bool", "readyCh chan struct{}"] ∧
+    svidSourceFields = ["spiffe *SPIFFE"] ∧
+    Shape.fetchProbe = true := by
+  decide
+
 /-- The renewal automaton applies exactly the source's rules (all states, not probes): the timer is
 armed for `min(CAP, renewAt − now)`; a wake before the renewal time only re-arms; a failed fetch arms
 `RETRY` and leaves the SVID; `renewalTime` is the source's formula. -/
@@ -221,6 +241,50 @@ example : ∃ s, Reach .fixed init s ∧ s.run.carrying = some 1 ∧ s.readers =
     (.tail .run (.tail .run (.tail .run (.tail .run (.tail .run (.tail (.reply true) (.tail .run (.tail .run
     (.tail .run (.tail .callRun (.refl _) rfl) rfl) rfl) rfl) rfl) rfl) rfl) rfl) rfl) rfl) rfl) rfl) rfl) rfl) rfl) rfl,
     rfl, rfl⟩
+
+/-- **`GetX509SVID` never blocks on a renewal in flight.**  In every reachable state of the repaired
+code in which a renewal request is outstanding at the issuer (`rotFetch` — for as long as the issuer
+takes, the clock may advance arbitrarily meanwhile), nobody holds or waits for the write lock, and
+consumer statements ALONE — no statement of Run, no answer from the issuer — bring every pending
+`Ready`/`GetX509SVID` call to its return, the request still outstanding, `currentSVID` untouched; every
+SVID handed out on the way is the one that was current when the request was issued (or had been read
+before), and it is an SVID, not an error. -/
+theorem renewal_in_flight_does_not_block_readers {s : St} (hreach : Reach .fixed init s)
+    (hfl : s.run = .rotFetch) :
+    s.wHeld = false ∧ s.wPend = false ∧ s.svid.isSome = true ∧
+    ∃ t, ConsPath .fixed s t ∧ t.run = .rotFetch ∧ t.svid = s.svid ∧ t.cons.length = s.cons.length ∧
+      (∀ c ∈ t.cons, c.returned = true) ∧
+      ∀ (i : Nat) (r : Option Nat), t.cons[i]? = some (ConsPc.gDone r) →
+        (s.cons[i]? = some (ConsPc.gUnlock r) ∨ s.cons[i]? = some (ConsPc.gDone r)) ∨ r = s.svid := by
+  obtain ⟨hb, hf⟩ := fixedInv_reach baseInv_init fixedInv_init hreach
+  have hro : ReadOld s s := fun i r h => Or.inl h
+  obtain ⟨t, hp, hall, hrun, hsv, hro', hlen⟩ :=
+    cons_only_progress (sumBy consRank s.cons) s s (Nat.le_refl _) hb hf hfl hro rfl
+  refine ⟨by rw [hb.held, hfl]; rfl, by rw [hb.pend, hfl]; rfl, by rw [hb.svid, hfl]; rfl,
+    t, hp, hrun, hsv, hlen, ?_, ?_⟩
+  · simp only [St.allReturned, List.all_eq_true] at hall; exact hall
+  · intro i r hir; exact hro' i r (Or.inr hir)
+
+/-- Non-vacuity: a renewal request is outstanding while a `GetX509SVID` call has just been made. -/
+example : ∃ s, Reach .fixed init s ∧ s.run = .rotFetch ∧ s.cons = [.gCall] ∧ s.svid = some 0 := by
+  refine ⟨_, .tail .callGet (.tail .renew (.tail .run (.tail .run (.tail .run (.tail .run (.tail .run
+    (.tail (.reply true) (.tail .run (.tail .run (.tail .run (.tail .callRun (.refl _) rfl) rfl) rfl) rfl) rfl)
+    rfl) rfl) rfl) rfl) rfl) rfl) rfl, rfl, rfl, rfl⟩
+
+/-- **The write lock is held only for the swap** (and, by design of `Run`, across the initial fetch
+until `readyCh` is closed): once `readyCh` is closed, the lock is write-held only at "assign
+currentSVID" / "Unlock", and a writer waits only inside the `Lock()` that directly precedes the
+assignment — never while a request is at the issuer, never while the loop waits or retries. -/
+theorem write_lock_only_for_swap {v : Variant} {s : St} (hreach : Reach v init s) (hready : s.ready = true) :
+    (s.wHeld = true → (∃ w, s.run = .rotSet w) ∨ s.run = .rotUnlock ∨ s.run = .unlockOk ∨ s.run = .unlockErr) ∧
+    (s.wPend = true → ∃ w, s.run = .rotPendLock w) := by
+  have hb := baseInv_reach baseInv_init hreach
+  have hr := hb.ready; rw [hready] at hr
+  constructor
+  · intro h; rw [hb.held] at h
+    cases hrun : s.run <;> simp [RunPc.held, RunPc.isReady, hrun] at h hr ⊢
+  · intro h; rw [hb.pend] at h
+    cases hrun : s.run <;> simp [RunPc.pend, RunPc.isReady, hrun] at h hr ⊢
 
 /-- **The code before the repair deadlocks**: `GetX509SVID` first, then `Run`.  The state is reachable
 in the model of the old code, and from it *no* continuation — more callers, cancellations, anything
